@@ -76,6 +76,7 @@ def run(ctx, chk):
     from .c08 import r5 as recovery_rule
     recovery_rule(ctx, chk, "C09.R6")
     leap_direction_rule(ctx, chk, "C09.R7")
+    dotted_time_rule(ctx, chk, "C09.R8")
 
 
 def _positive_atoms(f, pol=True):
@@ -263,3 +264,45 @@ def leap_direction_rule(ctx, chk, rule):
     chk.ob(rule, "_get_leap_year starts one step beside the given year and walks until calendar.isleap", m is not None,
            "the search includes the given year itself, skips a year, or tests something else", key={"function": g.key, "construct": "search loop"},
            file=g.file, function=g.qual, line=g.node.lineno)
+
+
+
+def dotted_time_rule(ctx, chk, rule):
+    """'09.30' / '13.20' alone is a clock time, not a date: the absolute parser joins `H`, `.`, `MM` into `H:MM` when the joined text matches
+    HOUR_MINUTE_REGEX, otherwise the two numbers are read as day and month and the past/future placement is applied to a DATE.  The pattern
+    is a module constant; its language is decided here by trying it on every H:MM string of one or two digits each: it must accept exactly
+    the hours 0..23 (with or without a leading zero) and the minutes 00..59."""
+    import regex
+    from ..core.rx import module_regex
+    try:
+        pat, fl = module_regex(ctx.ix, "dateparser.parser", "HOUR_MINUTE_REGEX")
+    except AnalysisError:
+        raise AnalysisError(rule, "dateparser.parser.HOUR_MINUTE_REGEX is not a compile of a literal pattern")
+    if (fl or "").strip():
+        raise AnalysisError(rule, "HOUR_MINUTE_REGEX flags %s not modelled" % fl)
+    rx_ = regex.compile(pat)
+    hours = [str(h) for h in range(0, 100)] + ["%02d" % h for h in range(0, 10)]
+    minutes = ["%02d" % m for m in range(0, 100)] + [str(m) for m in range(0, 10)]
+    wrong_rej, wrong_acc = [], []
+    n = 0
+    for h in hours:
+        for m in minutes:
+            n += 1
+            want = int(h) <= 23 and len(m) == 2 and int(m) <= 59
+            got = rx_.match(h + ":" + m) is not None          # the code uses re.match(HOUR_MINUTE_REGEX, text)
+            if want and not got:
+                wrong_rej.append(h + ":" + m)
+            elif got and not want:
+                wrong_acc.append(h + ":" + m)
+    f = ctx.ix.module("dateparser.parser").toplevel
+    chk.ob(rule, "HOUR_MINUTE_REGEX accepts every H:MM with H in 0..23 (one or two digits) and MM in 00..59 (%d strings tried)" % n, not wrong_rej,
+           "rejects %d valid times, e.g. %s: written alone with a period ('%s') they are read as day.month and lose the time of day" % (
+               len(wrong_rej), wrong_rej[:4], wrong_rej[0].replace(":", ".") if wrong_rej else ""),
+           key={"function": f.key, "construct": "HOUR_MINUTE_REGEX accepts"}, file="dateparser/parser.py", function="HOUR_MINUTE_REGEX", line=None, text=pat)
+    chk.ob(rule, "HOUR_MINUTE_REGEX accepts nothing else", not wrong_acc,
+           "accepts %d impossible times, e.g. %s" % (len(wrong_acc), wrong_acc[:4]),
+           key={"function": f.key, "construct": "HOUR_MINUTE_REGEX rejects"}, file="dateparser/parser.py", function="HOUR_MINUTE_REGEX", line=None, text=pat)
+    # the constant is what the joining code consults
+    uses = [(g, nd) for g in ctx.ix.funcs.values() if g.module.name == "dateparser.parser" for nd in iter_own_nodes(g.node)
+            if isinstance(nd, ast.Call) and any(isinstance(a, ast.Name) and a.id == "HOUR_MINUTE_REGEX" for a in nd.args)]
+    chk.floor(rule, len(uses), 1, "uses of HOUR_MINUTE_REGEX")
